@@ -284,6 +284,34 @@ fn c13_splice_d%(idx)d_%(chunk)d() {
 ''' % {'idx': idx, 'chunk': chunk, 'doc': rs_str(doc), 'body': body, 'unw': unwind_for(doc, 8)}
 
 
+def h_reject(idx, doc):
+    """C15: Vfs::change_file_content rejects every range that is not an applicable range of the document
+    (past the end, or not on character boundaries) and changes nothing - the other half of T3."""
+    n = ref.byte_len(doc)
+    bset = set(ref.boundaries(doc))
+    cases = [(n, n + 1), (n + 1, n + 2)]
+    nb = [o for o in range(n + 1) if o not in bset]
+    for o in nb:
+        cases += [(o, o), (0, o), (o, n)]
+    body = ''
+    for (a, b) in cases:
+        body += '''        let r = vfs.change_file_content(file, Some(TextRange::new(TextSize::from(%d), TextSize::from(%d))), "x");
+        assert!(r.is_err() && &*vfs.content_for_file(file) == DOC && vfs.change.calls.is_empty(), "T3/K5: a delete range past the end or inside a character is rejected and changes nothing");
+        std::mem::forget(r);
+''' % (a, b)
+    return '''
+#[kani::proof]
+#[kani::stub(alloc::fmt::format, stub_fmt)]
+#[kani::stub(alloc::string::String::with_capacity, stub_with_capacity)]
+#[kani::unwind(%(unw)d)]
+fn c15_reject_d%(idx)d() {
+    const DOC: &str = %(doc)s;
+    let (mut vfs, file) = mk_vfs(DOC);
+%(body)s    kani::cover!(true, "all inapplicable ranges tried");
+}
+''' % {'idx': idx, 'doc': rs_str(doc), 'body': body, 'unw': unwind_for(doc, 8)}, len(cases)
+
+
 def expected_tokens(doc, hls):
     """reference encoding (LSP 3.17 semantic tokens, relative): list of
     (delta_line, delta_start, length, tag_index_in_hls)"""
@@ -379,6 +407,14 @@ def generate(prop, tier, max_chars=None):
         for i, d in enumerate(docs):
             text += h_pos(i, d, 'c15')
             hs.append({'name': 'c15_pos_d%d' % i, 'doc': d, 'what': 'T1-T3: arbitrary LSP range (symbolic over u32^4): no panic, valid accepted exactly, invalid rejected'})
+        for i, d in enumerate(docs):
+            if all(ord(c) < 0x80 for c in d) and d not in ('', 'a\n'):
+                continue
+            if tier == 'quick' and d not in ('', 'a\n', '\u00df', '\u211d', '\U0001F4A3', 'a\U0001F4A3', '\U0001F4A3a', '\u00df\U0001F4A3'):
+                continue
+            t, ncases = h_reject(i, d)
+            text += t
+            hs.append({'name': 'c15_reject_d%d' % i, 'doc': d, 'what': 'T3/K5: %d inapplicable delete ranges (past the end, inside a character) are rejected by change_file_content and change nothing' % ncases})
     elif prop == 'C19':
         # two tokens on one line with the first one not at column 0 need three characters
         if tier == 'quick':
